@@ -92,15 +92,16 @@ def lookup (tbl : Table α) (pm : OfMatch) : Option (Entry α) := tbl.find? (Ent
 /-! ## every mutating operation of `FlowTable` -/
 namespace TableOps
 
-/-- the strict test of `is_matched_by`.  `/repo` HEAD (`bothWays = true`, since repair C04-1): "identical means matching the same
+/-- the strict test of `is_matched_by` (`mw` = the variant's `matches_with_wildcards`).  `/repo` HEAD (`bothWays = true`, since repair C04-1): "identical means matching the same
     packets" — `match.matches_with_wildcards(self.match) and self.match.matches_with_wildcards(match)`; before that repair
     (`bothWays = false`): `self.match == match`.  (The same switch as `FlowMod.strictMatch` of C04.) -/
-def strictTest (bothWays : Bool) (entry m : OfMatch) : Bool :=
-  if bothWays then m.matchesWith true entry && entry.matchesWith true m else entry.eqMatch m
+def strictTest (mw : Bool → OfMatch → OfMatch → Bool) (bothWays : Bool) (entry m : OfMatch) : Bool :=
+  if bothWays then mw true m entry && mw true entry m else entry.eqMatch m
 
 /-- `e.is_matched_by(match, priority, strict, out_port)`; `portOk` stands for `out_port is None or any(output to out_port)` -/
-def selectedBy (bothWays : Bool) (m : OfMatch) (priority : Nat) (strict : Bool) (portOk : α → Bool) (e : Entry α) : Bool :=
-  portOk e.data && (if strict then e.priority == priority && strictTest bothWays e.mtch m else m.matchesWith true e.mtch)
+def selectedBy (mw : Bool → OfMatch → OfMatch → Bool) (bothWays : Bool) (m : OfMatch) (priority : Nat) (strict : Bool) (portOk : α → Bool)
+    (e : Entry α) : Bool :=
+  portOk e.data && (if strict then e.priority == priority && strictTest mw bothWays e.mtch m else mw true m e.mtch)
 
 /-- one call on a `FlowTable` -/
 inductive Op (α : Type) where
@@ -116,19 +117,20 @@ inductive Op (α : Type) where
   | expire (dead : Entry α → Bool)
 
 /-- the table after the call, and whether the call raised -/
-def step (key : Entry α → Nat) (bothWays : Bool) (tbl : Table α) : Op α → Table α × Bool
+def step (key : Entry α → Nat) (mw : Bool → OfMatch → OfMatch → Bool) (bothWays : Bool) (tbl : Table α) : Op α → Table α × Bool
   | .add e => (match addEntryBy? key e tbl with
       | some t => (t, false)
       | none => (tbl, true))                                   -- IndexError (never happens: `addEntryBy?_eq_some`)
   | .removeAt i => if i < tbl.length then (tbl.eraseIdx i, false) else (tbl, true)    -- ValueError
-  | .removeMatching m pr strict portOk => (tbl.filter (fun e => !selectedBy bothWays m pr strict portOk e), false)
+  | .removeMatching m pr strict portOk => (tbl.filter (fun e => !selectedBy mw bothWays m pr strict portOk e), false)
   | .expire dead => (tbl.filter (fun e => !dead e), false)
 
 /-- the table after a sequence of calls (calls that raise leave it unchanged) -/
-def runFrom (key : Entry α → Nat) (bothWays : Bool) (tbl : Table α) (ops : List (Op α)) : Table α :=
-  ops.foldl (fun t op => (step key bothWays t op).1) tbl
+def runFrom (key : Entry α → Nat) (mw : Bool → OfMatch → OfMatch → Bool) (bothWays : Bool) (tbl : Table α) (ops : List (Op α)) : Table α :=
+  ops.foldl (fun t op => (step key mw bothWays t op).1) tbl
 /-- … on an empty `FlowTable` -/
-def run (key : Entry α → Nat) (bothWays : Bool) (ops : List (Op α)) : Table α := runFrom key bothWays [] ops
+def run (key : Entry α → Nat) (mw : Bool → OfMatch → OfMatch → Bool) (bothWays : Bool) (ops : List (Op α)) : Table α :=
+  runFrom key mw bothWays [] ops
 
 /-- the entries handed to `add_entry` in a history -/
 def added : List (Op α) → List (Entry α)
